@@ -180,8 +180,73 @@ func Install(vm *goja.Runtime) {
 		call.Argument(0).Export().(goja.ArrayBuffer).Detach()
 		return goja.Undefined()
 	})
+	// Go-side integer conversion of a number through Runtime.ExportTo (C05 conversion tables)
+	vm.Set("__exportInt", func(call goja.FunctionCall) goja.Value {
+		v := call.Argument(0)
+		var err error
+		var res int64
+		switch call.Argument(1).String() {
+		case "i32":
+			var x int32
+			err = vm.ExportTo(v, &x)
+			res = int64(x)
+		case "u32":
+			var x uint32
+			err = vm.ExportTo(v, &x)
+			res = int64(x)
+		case "i16":
+			var x int16
+			err = vm.ExportTo(v, &x)
+			res = int64(x)
+		case "u16":
+			var x uint16
+			err = vm.ExportTo(v, &x)
+			res = int64(x)
+		case "i8":
+			var x int8
+			err = vm.ExportTo(v, &x)
+			res = int64(x)
+		case "u8":
+			var x uint8
+			err = vm.ExportTo(v, &x)
+			res = int64(x)
+		}
+		if err != nil {
+			panic(vm.NewGoError(err))
+		}
+		return vm.ToValue(res)
+	})
 	vm.Set("__regs", func(call goja.FunctionCall) goja.Value {
 		return vm.ToValue(goja.VerifRegs(vm))
+	})
+	// Object.MarshalJSON of a value (C19): {s: text} or {err: error class}; undefined when the value is not an object
+	vm.Set("__marshalJSON", func(call goja.FunctionCall) goja.Value {
+		o, ok := call.Argument(0).(*goja.Object)
+		if !ok {
+			return goja.Undefined()
+		}
+		b, err := o.MarshalJSON()
+		if err != nil {
+			name := "!" + err.Error()
+			if ex, ok := err.(*goja.Exception); ok {
+				if eo, ok := ex.Value().(*goja.Object); ok {
+					if n := eo.Get("name"); n != nil {
+						name = n.String()
+					}
+				}
+			}
+			return vm.ToValue(map[string]interface{}{"err": name})
+		}
+		return vm.ToValue(map[string]interface{}{"s": string(b)})
+	})
+	// which matcher a RegExp object was compiled for / whether the optimised protocol paths apply to it (C20)
+	vm.Set("__rxInfo", func(call goja.FunctionCall) goja.Value {
+		o, _ := call.Argument(0).(*goja.Object)
+		m := goja.VerifRegexpInfo(o)
+		if m == nil {
+			return goja.Null()
+		}
+		return vm.ToValue(m)
 	})
 }
 
